@@ -169,6 +169,15 @@ Theorem C03_first_records_first_scanned : forall q blanks AND sh (c : cfg) E cs 
 Proof. exact first_records_first_scanned. Qed.
 Print Assumptions C03_first_records_first_scanned.
 
+(** subtotal() against its specification: per value of cell i, the total of cell j over the scanned lines holding it *)
+Theorem C03_subtotal_totals_scanned : forall q blanks AND sh (c : cfg) E cs (recs : list (line ustring)) x0 nm i j key,
+  wf sh -> parse false (ast_of sh) = Some (scanner c) -> q_scan c = false -> end_line c = Some E ->
+  end_of ustring recs = Some E -> will_run c = true -> subtotal_once nm i j cs ->
+  num_of (dget (x mx (st ustring mx (run_from ustring mx (core_m q blanks AND cs (Some E)) c (rs0 mx x0) None recs))) nm key) =
+  num_of (dget x0 nm key) + subtotal_of blanks i j key (filter (want ustring sh) (number 0 recs)).
+Proof. exact subtotal_totals_scanned. Qed.
+Print Assumptions C03_subtotal_totals_scanned.
+
 Example C03_tally_once_nonvacuous :
   tally_once 1 [CB (BExists 0); CAgg (Tally 1); CAgg (First 7 1); CAct (Agg (AssignK 5 [116] NCount))] /\
   wf (From 1) /\ parse false (ast_of (From 1)) = Some (mkSc [] (Some 1) None true).
